@@ -120,10 +120,24 @@ def encoder(ctx):
   allocs = [c for c in U.calls_in(fi.node) if (dotted(c.func) or '') in ('np.zeros', 'numpy.zeros') and c.args and isinstance(c.args[0], ast.Tuple)]
   ctx.require(len(allocs) >= 2, 'sequence_to_pianoroll: roll allocations not found')
   for c in allocs:
-    rows = c.args[0].elts[0]
+    rows = U.expand_locals(fi.node, c.args[0].elts[0], None)     # a hoisted `num_frames = ...` is looked through
     cls, inner = rounding_class(rows)
+    if cls is None and isinstance(rows, ast.BinOp) and isinstance(rows.op, ast.Add):
+      # floor(e) + k == floor(e + k) for an integer k (same for ceil); round(e) + k stays a rounding to the nearest
+      for a_, b_ in ((rows.left, rows.right), (rows.right, rows.left)):
+        k_ = U.const_value(b_)
+        c2, i2 = rounding_class(a_)
+        if isinstance(k_, int) and c2 is not None:
+          cls, inner = c2, ast.BinOp(left=i2, op=ast.Add(), right=ast.Constant(value=k_))
     ok = cls == 'floor' and nf.equal(inner, E('sequence.total_time * frames_per_second + 1'))
-    ctx.ob('ALLOC/rows', fi, c, ok, 'rows = int(total_time * fps + 1)' if ok else 'the roll has %s rows, not int(total_time * frames_per_second + 1)' % norm_text(rows))
+    understood = False
+    if not ok and cls in ('floor', 'ceil', 'round'):
+      try:
+        nf.rat(inner)
+        understood = True       # the row count is a rounding of a rational expression of total_time and fps, and it is a different one
+      except nf.NFError:
+        understood = False
+    ctx.ob('ALLOC/rows', fi, c, ok, 'rows = int(total_time * fps + 1)' if ok else 'the roll has %s rows, not int(total_time * frames_per_second + 1)' % norm_text(rows), definite=understood)
   roll = [c for c in allocs if len(c.args[0].elts) == 2 and norm_text(c.args[0].elts[1]) != '128']
   ok = bool(roll) and nf.equal(roll[0].args[0].elts[1], E('max_pitch - min_pitch + 1'))
   ctx.ob('ALLOC/columns', fi, roll[0] if roll else fi.node, ok, 'columns = max_pitch - min_pitch + 1' if ok else 'the roll does not have max_pitch - min_pitch + 1 columns')
@@ -251,7 +265,7 @@ def decoder(ctx):
   okc = len(dels) == 1 and len(alld) == 1
   ctx.ob('DEC/end-clears-start', ep, alld[0] if alld else ep.node, okc, 'end_pitch removes the pitch from the open runs unconditionally' if okc else
          'end_pitch does not always remove the pitch from pitch_start_step: a run that is too short stays open and is ended again on every later frame',
-         construct='del pitch_start_step[pitch] at the top level of end_pitch')
+         construct='del pitch_start_step[pitch] at the top level of end_pitch', definite=len(alld) == 1 and not dels)
   # preprocessing order: frames |= onsets, then frames &= ~offsets (a predicted offset ends the note even in an onset frame)
   ons = [s for s in U.walk_stmts(fn) if isinstance(s, ast.Assign) and norm_text(s.targets[0]) == 'frames' and isinstance(s.value, ast.Call) and
          dotted(s.value.func) in ('np.logical_or', 'numpy.logical_or') and 'onset_predictions' in norm_text(s.value)]
